@@ -97,10 +97,10 @@ theorem front_step (cfg : Cfg) (dist : Nat → Nat) (s : St) (w : Want) (op : Op
     simp only [isStoreOp, ↓reduceIte, frontStep, frontOf, wantStep, spawns, step, hc]
     simp [newTasks]
   | payment =>
-    have hnt : newTasks s (step cfg dist s .payment).1 = [(s.nextId, Task.flush (s.payments + 1))] := by
-      apply newTasks_append; simp [step, payment]
+    have hnt : newTasks s (step cfg dist s .payment).1 = [] := by
+      simp [newTasks, step, payment_eq, paymentSync]
     simp only [isStoreOp, ↓reduceIte, frontStep, frontOf, wantStep, spawns, hnt]
-    simp [step, payment, applyTask]
+    simp [step, payment_eq, paymentSync]
   | crash t => exact absurd hb (by simp)
 
 theorem front_run (cfg : Cfg) (dist : Nat → Nat) (ops : List Op) (s : St) (w : Want)
